@@ -20,7 +20,7 @@ func init() {
 		ID:          "C10",
 		Level:       "other",
 		Run:         runC10,
-		Explanation: "One necessary condition per variant family. R10.1 (variants with several execute units): the control unit's dispatch decision, or the execute unit's decision to start, is control-dependent on the kinds or addresses of older in-flight memory operations (a hold of a load/store while a conflicting store is pending: a test of IsMemoryRead/IsMemoryWrite or of MemoryRead/MemoryWrite addresses that leaves without dispatching, or a use of the per-address store scoreboard PendingWriteMemoryIntention); uses of the same calls that only feed a routing preference do not count. Its absence makes the property false for some program. R10.2 (in-order variants with one execute unit): the write unit performs a store when it accepts it and blocks for the memory latency, so no younger access is accepted in between. R10.3: the per-line locks pair up (R07.4), necessary for cross-core ordering. R10.8: the write unit writes every accepted store to memory from the execution it recorded and releases the scoreboard after the write. R10.7: a write-back snoop moves the data to the next level before the line leaves the cache. R10.4: MemoryRead/MemoryWrite of every load and store return exactly the byte addresses the instruction accesses (the variants probe, lock and route on these lists). R10.5 (pipelined variants without per-line locks): the line a load miss installs in the data cache is read from the memory image in the step that installs it, not snapshotted when the miss is detected. R10.6 (same variants): a load that hits samples its bytes in the step that issues it; a deferred continuation reads the data cache only right after installing the missing line. Does not decide whether an existing mechanism is sufficient (ordering of conflicting accesses is a schedule/value property). R10.9 the per-line reader/writer lock (comp.Sem) equals its reference model and the lock handed out for a line is the one stored under the line's key. R10.10 every path to the run step of an instruction that reads memory first assigns the field handed to Run as its memory bytes. R10.11 every per-line table of the memory system (dirty flags, states, locks) is keyed through the alignment function of its own line size (a dirty flag recorded under another alignment loses the store at eviction). R10.12 a store is applied to the cached line only on the side of the presence test on which all its bytes are resident (polarity of the routing). R10.13 the membership test of a pending line-fetch interval includes its start address (a second access to the very address being fetched must wait, not fetch a second copy of the line). R10.14 the lock functions of the coherence layer either tell an access to wait or hand out the line lock they acquired for it (no proceed-response without a lock).",
+		Explanation: "One necessary condition per variant family. R10.1 (variants with several execute units): the control unit's dispatch decision, or the execute unit's decision to start, is control-dependent on the kinds or addresses of older in-flight memory operations (a hold of a load/store while a conflicting store is pending: a test of IsMemoryRead/IsMemoryWrite or of MemoryRead/MemoryWrite addresses that leaves without dispatching, or a use of the per-address store scoreboard PendingWriteMemoryIntention); uses of the same calls that only feed a routing preference do not count. Its absence makes the property false for some program. R10.2 (in-order variants with one execute unit): the write unit performs a store when it accepts it and blocks for the memory latency, so no younger access is accepted in between. R10.3: the per-line locks pair up (R07.4), necessary for cross-core ordering. R10.8: the write unit writes every accepted store to memory from the execution it recorded and releases the scoreboard after the write. R10.7: a write-back snoop moves the data to the next level before the line leaves the cache. R10.4: MemoryRead/MemoryWrite of every load and store return exactly the byte addresses the instruction accesses (the variants probe, lock and route on these lists). R10.5 (pipelined variants without per-line locks): the line a load miss installs in the data cache is read from the memory image in the step that installs it, not snapshotted when the miss is detected. R10.6 (same variants): a load that hits samples its bytes in the step that issues it; a deferred continuation reads the data cache only right after installing the missing line. Does not decide whether an existing mechanism is sufficient (ordering of conflicting accesses is a schedule/value property). R10.9 the per-line reader/writer lock (comp.Sem) equals its reference model and the lock handed out for a line is the one stored under the line's key. R10.10 every path to the run step of an instruction that reads memory first assigns the field handed to Run as its memory bytes. R10.11 every per-line table of the memory system (dirty flags, states, locks) is keyed through the alignment function of its own line size (a dirty flag recorded under another alignment loses the store at eviction). R10.12 a store is applied to the cached line only on the side of the presence test on which all its bytes are resident (polarity of the routing). R10.13 the membership test of a pending line-fetch interval includes its start address (a second access to the very address being fetched must wait, not fetch a second copy of the line). R10.14 the lock functions of the coherence layer either tell an access to wait or hand out the line lock they acquired for it (no proceed-response without a lock). R10.15 the line displaced by an insertion is written back on every path (shared with C05); R10.16 the memory-read/memory-write classification tables equal the sets derived from the opcodes (a store missing from the table is not routed to the owning core); R10.17 the result of a line-lock attempt is never discarded; R10.18 the interval registered for a line fetch covers the whole line.",
 		Assumptions: []string{},
 		Trusted:     []string{"go/types", "role resolution"},
 	})
@@ -181,6 +181,12 @@ func runC10(r *Run) {
 	r.floor("R10.10", 10)
 	ruleLoadDataReachesRun(r, "R10.10")
 	// the per-line tables of the memory system are keyed through one alignment function (shared with C05)
+	r.floor("R10.17", 15)
+	ruleLockResultTested(r, "R10.17")
+	r.floor("R10.18", 4)
+	rulePendingIntervalCoversLine(r, "R10.18")
+	r.floor("R10.16", 4)
+	ruleClassification(r, "R10.16")
 	r.floor("R10.14", 15)
 	ruleProceedHoldsLock(r, "R10.14")
 	r.floor("R10.13", 4)
@@ -188,7 +194,8 @@ func runC10(r *Run) {
 	r.floor("R10.12", 6)
 	ruleStoreRoutingPolarity(r, "R10.12")
 	r.floor("R10.11", 10)
-	importRules(r, runC05, map[string]string{"R05.6": "R10.11"})
+	importRules(r, runC05, map[string]string{"R05.6": "R10.11", "R05.2": "R10.15"})
+	r.floor("R10.15", 10)
 	r.floor("R10.9", 7)
 	ruleSemConformance(r, "R10.9")
 	ruleOneLockPerLine(r, "R10.9")
